@@ -30,7 +30,8 @@
 (***************************************************************************)
 EXTENDS Values
 
-CONSTANT Defaults      \* sequence of map functions: values.yaml of chart version 1, 2, ...
+CONSTANTS Defaults,    \* sequence of map functions: values.yaml of chart version 1, 2, ...
+          SubDefaults  \* the same for the chart's dependency "s1" (its own values.yaml per chart version)
 
 IsUp(s) == s.op = "upgrade"
 Fails(s) == s.op = "upgrade" /\ s.fail
@@ -58,12 +59,12 @@ NullOverSet(new, old) ==
 
 PropStep(revs, s, d) ==             \* d: index of the deployed revision
   LET dep == revs[d] IN
-  CASE s.op = "install"  -> [hist |-> <<Mp(s.vals)>>, defs |-> Defaults[s.chart]]
+  CASE s.op = "install"  -> [hist |-> <<Mp(s.vals)>>, defs |-> s.chart]
     [] s.op = "rollback" -> revs[s.target]
-    [] Eff(s.mode) = "reset"  -> [hist |-> <<Mp(s.vals)>>, defs |-> Defaults[s.chart]]
+    [] Eff(s.mode) = "reset"  -> [hist |-> <<Mp(s.vals)>>, defs |-> s.chart]
     [] Eff(s.mode) = "reuse"  -> [hist |-> Append(dep.hist, Mp(s.vals)), defs |-> dep.defs]
-    [] Eff(s.mode) = "rtr"    -> [hist |-> Append(dep.hist, Mp(s.vals)), defs |-> Defaults[s.chart]]
-    [] OTHER             -> [hist |-> IF s.vals # <<>> THEN <<Mp(s.vals)>> ELSE dep.hist, defs |-> Defaults[s.chart]]
+    [] Eff(s.mode) = "rtr"    -> [hist |-> Append(dep.hist, Mp(s.vals)), defs |-> s.chart]
+    [] OTHER             -> [hist |-> IF s.vals # <<>> THEN <<Mp(s.vals)>> ELSE dep.hist, defs |-> s.chart]
 
 RECURSIVE PropRevs(_, _)
 PropRevs(steps, n) ==      \* the property's view of revisions 1..n
@@ -79,25 +80,33 @@ ConfigOk(s, depCfg, tgtCfg, newCfg) ==
     [] OTHER             -> newCfg = IF s.vals # <<>> THEN s.vals ELSE depCfg
 
 \* what the templates of the new revision see (eff: tree)
-EffectiveOk(p, eff) == Ok(<<Mp(p.defs)>> \o p.hist, Norm(eff), FALSE)
+\* p.defs: the chart version whose defaults are in force - the chart's own values.yaml and, below
+\* it, the values.yaml of its dependency s1 (seen by the chart's templates under the key s1)
+DefSources(v) == <<Lift(Mp(SubDefaults[v]), <<"s1">>), Mp(Defaults[v])>>
+EffectiveOk(p, eff) == Ok(DefSources(p.defs) \o p.hist, Norm(eff), FALSE)
 
 (* ----- code-shaped ---------------------------------------------------------- *)
+\* a revision's chart object: its root values and the version of the dependency packaged with it
+ChartRec(vals, subv) == [name |-> "root", vals |-> vals,
+                         deps |-> <<[name |-> "s1", vals |-> SubDefaults[subv], deps |-> <<>>]>>]
 CodeStep(revs, s, d) ==             \* prepareUpgrade: currentRelease = Releases.Deployed(name)
   LET dep == revs[d] IN
-  CASE s.op = "install"  -> [cfg |-> s.vals, chartvals |-> Defaults[s.chart]]
+  CASE s.op = "install"  -> [cfg |-> s.vals, chartvals |-> Defaults[s.chart], sub |-> s.chart]
     [] s.op = "rollback" -> revs[s.target]
-    [] Eff(s.mode) = "reset"  -> [cfg |-> s.vals, chartvals |-> Defaults[s.chart]]
+    [] Eff(s.mode) = "reset"  -> [cfg |-> s.vals, chartvals |-> Defaults[s.chart], sub |-> s.chart]
     [] Eff(s.mode) = "reuse"  -> [cfg |-> CoalesceTables(s.vals, dep.cfg),
-                             chartvals |-> CoalesceValues([name |-> "root", vals |-> dep.chartvals, deps |-> <<>>], dep.cfg).v]
-    [] Eff(s.mode) = "rtr"    -> [cfg |-> CoalesceTables(s.vals, dep.cfg), chartvals |-> Defaults[s.chart]]
+                             \* chart.Values := CoalesceValues(deployed.Chart, deployed.Config): the deployed chart WITH
+                             \* its dependency; the chart object stays the new one (new dependency underneath)
+                             chartvals |-> CoalesceValues(ChartRec(dep.chartvals, dep.sub), dep.cfg).v, sub |-> s.chart]
+    [] Eff(s.mode) = "rtr"    -> [cfg |-> CoalesceTables(s.vals, dep.cfg), chartvals |-> Defaults[s.chart], sub |-> s.chart]
     [] OTHER             -> [cfg |-> IF s.vals = <<>> /\ dep.cfg # <<>> THEN dep.cfg ELSE s.vals,
-                             chartvals |-> Defaults[s.chart]]
+                             chartvals |-> Defaults[s.chart], sub |-> s.chart]
 
 RECURSIVE CodeRevs(_, _)
 CodeRevs(steps, n) ==
   IF n = 0 THEN <<>> ELSE LET r == CodeRevs(steps, n - 1) IN Append(r, CodeStep(r, steps[n], DepAt(steps, n)))
 
-CodeEffective(r) == Mp(CoalesceValues([name |-> "root", vals |-> r.chartvals, deps |-> <<>>], r.cfg).v)
+CodeEffective(r) == Mp(CoalesceValues(ChartRec(r.chartvals, r.sub), r.cfg).v)
 
 (* ----- one rule for every key ------------------------------------------------------------- *)
 \* "Overlaid key by key with the new ones": what a null of the new values does to a key the
@@ -131,4 +140,20 @@ L18Lineage(steps, cfgs, n) ==
     [] Eff(s.mode) = "reset"  -> FALSE
     [] Carries(s)        -> NullOverSet(s.vals, cfgs[DepAt(steps, n)]) \/ L18Lineage(steps, cfgs, DepAt(steps, n))
     [] OTHER             -> IF s.vals # <<>> THEN FALSE ELSE L18Lineage(steps, cfgs, DepAt(steps, n))
+
+(* ----- finding: a stored release has lost the chart's dependencies ------------------------------ *)
+\* chart.Chart.dependencies is not part of the JSON a release record is stored as: read back from
+\* Secret / ConfigMap storage the deployed chart has no subcharts, so reuse-values rebuilds "the old
+\* coalesced values" without the dependency's values.yaml and the NEW version's dependency defaults
+\* apply (the memory driver keeps the pointer and behaves as C13 says).  Shape: the defaults in
+\* force at revision n were inherited through a reuse step between chart versions whose dependency
+\* defaults differ.
+RECURSIVE SubLostLineage(_, _)
+SubLostLineage(steps, n) ==
+  LET s == steps[n]
+      d == DepAt(steps, n) IN
+  CASE s.op = "install"  -> FALSE
+    [] s.op = "rollback" -> SubLostLineage(steps, s.target)
+    [] Eff(s.mode) = "reuse" -> SubDefaults[s.chart] # SubDefaults[PropRevs(steps, d)[d].defs] \/ SubLostLineage(steps, d)
+    [] OTHER -> FALSE
 =============================================================================
